@@ -378,7 +378,7 @@ func explore(cfg *Config, idx int, deadline time.Time) *cfgResult {
 		for _, f := range o.fails {
 			res.addViolation(cfg, idx, f.Sig, f.Detail, hist)
 		}
-		if res.sample == nil && len(m.list) >= 2 && len(hist) >= 2 && len(o.fails) == 0 && len(o.observed) > 0 {
+		if res.sample == nil && len(m.list) >= 2 && len(hist) >= 1 && len(o.fails) == 0 && len(o.observed) > 0 {
 			res.sample = map[string]any{"config": cfg.id(), "history": histString(hist), "members": m.hosts(), "selected_next": o.observed}
 		}
 		return true
